@@ -102,3 +102,48 @@ PROPS["C06"] = {
     ],
     "design_ref": "DESIGN.md §7 C06",
 }
+
+CODEC_NOTE = ("Trusted: Lean kernel; rs2lean (format codes, offsets, thresholds, depth/count limits from format_code.rs, format.rs, ser.rs, de.rs); "
+              "the hand-written encoder/decoder model Amqp/Codec.lean, tied to serde_amqp by differential runs (byte-exact encodings, decoded value / "
+              "error class / bytes left, for generated values and ~10^5 byte strings per run); String::from_utf8 / char::from_u32 as re-implemented in the model. "
+              "WF (decidable) states what the codec supports: fixed scalars of their width, valid UTF-8 / chars, lists/maps/arrays of at most MAX_ARRAY_COUNT (65536) entries, "
+              "maps without duplicate keys, arrays whose elements are scalars or strings/binaries/symbols of one kind, nesting up to MAX_NESTING_DEPTH (128). "
+              "Arrays of null / list / map / array / described elements are outside WF: the implementation does not round-trip them (known findings).")
+
+PROPS["C03"] = {
+    "title": "Wire codec round-trip",
+    "module": "Theorems.C03",
+    "theorems": [
+        "Amqp.Codec.value_roundtrip",
+        "Amqp.Codec.decode_encode",
+        "Amqp.Codec.enc_scalar_total",
+        "Amqp.Codec.codes_consistent",
+        "Amqp.Codec.codes_complete",
+        "Amqp.Codec.rt",
+        "Amqp.Codec.rtAll",
+    ],
+    "harness": ["codec"],
+    "gen_files": ["Amqp/Gen/Codes.lean"],
+    "technique": "Lean 4 proof by mutual structural induction over the nested value type (encoder/decoder model with generated format codes and thresholds) + byte-exact differential runs against serde_amqp",
+    "level_text": "Machine-checked round-trip theorem decode(encode(v) ++ tail) = (v, tail) for every well-formed untyped AMQP value of any size and nesting (all primitives and width classes, lists, maps, arrays, described values), over a model of serde_amqp's encoder and Value decoder whose codes/thresholds are regenerated from the source; the model is compared with to_vec / from_slice on thousands of generated values and ~10^5 byte strings per run (identical bytes, identical decoded values and error classes), and the round-trip is also evaluated directly on the implementation. Typed composites (performatives, messages) are covered by the differential runs of C06/C09 traffic only in this revision.",
+    "level_note": CODEC_NOTE,
+    "assumptions": COMMON_ASSUME + ["map keys compare structurally (the generator keeps floats out of map keys, where Rust compares NaN == NaN and 0.0 == -0.0)"],
+    "design_ref": "DESIGN.md §7 C03",
+}
+
+PROPS["C20"] = {
+    "title": "All codec entry points agree",
+    "module": "Theorems.C20",
+    "theorems": [
+        "Amqp.Codec.size_eq_length",
+        "Amqp.Codec.size_enc",
+        "Amqp.Codec.tail_untouched",
+    ],
+    "harness": ["codec"],
+    "gen_files": ["Amqp/Gen/Codes.lean"],
+    "technique": "Lean 4 proof by mutual structural induction (size serializer = length of the encoding, for every value; decoding leaves the following bytes untouched) + differential runs of serialized_size / from_slice / from_reader with every chunk size",
+    "level_text": "Machine-checked: the model of the size serializer equals the length of the model's encoding for every value (no well-formedness needed beyond scalar widths), and decoding an encoding followed by arbitrary bytes returns exactly those bytes as the rest. The model is tied to serde_amqp by differential runs; slice reader vs io reader (fed in chunks of 1,2,3,7,64,... bytes, all chunk sizes for short inputs) are compared directly on the implementation for results and bytes taken from the stream.",
+    "level_note": CODEC_NOTE + " The io reader itself is not modelled (its agreement with the slice reader is established by differential runs only); to_value/from_value is not covered in this revision.",
+    "assumptions": COMMON_ASSUME,
+    "design_ref": "DESIGN.md §7 C20",
+}
